@@ -33,6 +33,9 @@ for prop in sorted(os.listdir(src)):
             print("SKIP (not verified)", prop, v, ver)
             continue
         dst = os.path.join(out_root, prop + REN.get(v, v))
+        first_eval = None
+        if os.path.exists(os.path.join(dst, "meta.json")):
+            first_eval = json.load(open(os.path.join(dst, "meta.json"))).get("fired_at_first_evaluation")
         shutil.rmtree(dst, ignore_errors=True)
         shutil.copytree(d, dst)
         meta = json.load(open(os.path.join(dst, "meta.json")))
@@ -43,6 +46,7 @@ for prop in sorted(os.listdir(src)):
         meta.update({
             "property": prop, "variant": REN.get(v, v),
             "verified_by_me": dict(ver, how="tools/seedcheck.sh <dir> verify: demo copied into a scratch worktree of /repo HEAD, run on the unchanged tree (must pass), patch applied with git apply, demo re-run (must fail), demo removed, go build ./... and go test -vet=off -count=1 ./memdb ./resp ./server ./util ./raftexample on the patched tree"),
+            "fired_at_first_evaluation": first_eval if first_eval is not None else fired,
             "caught_by_checks": fired, "caught_by_rules": rules, "first_reports": first,
         })
         json.dump(meta, open(os.path.join(dst, "meta.json"), "w"), indent=1)
